@@ -112,8 +112,8 @@ def _loop_discipline(chk, mod, f, open_test_ok):
         chk.ob("C03.R3-builder", f"{mod.name}: loop body is one open/close decision", None, where, found=[type(s).__name__ for s in lp.body], accepted="if <open>: ... else: ...")
         return None
     iff = top[0]
-    chk.ob("C03.R3-builder", f"{mod.name}: the branch test distinguishes OPEN endpoints with the encoding's constant", open_test_ok(iff.test, lp), where, found=ast.unparse(iff.test), accepted="kind == OPEN")
-    ob, cb = iff.body, iff.orelse
+    itest, ob, cb = H.norm_if(iff)
+    chk.ob("C03.R3-builder", f"{mod.name}: the branch test distinguishes OPEN endpoints with the encoding's constant", open_test_ok(itest, lp), where, found=ast.unparse(iff.test), accepted="kind == OPEN")
     is_stack_call = lambda c, names: isinstance(c, ast.Call) and isinstance(c.func, ast.Attribute) and c.func.attr in names and H.name_id(c.func.value) == stack_name
     pushes = [c for s in ob for c in ast.walk(s) if is_stack_call(c, ("append",))]
     edges = [c for s in ob for c in ast.walk(s) if isinstance(c, ast.Call) and isinstance(c.func, ast.Attribute) and c.func.attr == "_add_edge"]
@@ -122,15 +122,16 @@ def _loop_discipline(chk, mod, f, open_test_ok):
     pd_ok, parent_var = False, None
     for pi in [s for s in ob if isinstance(s, ast.If)]:
         b = None
+        ptest, pbody, porelse = H.norm_if(pi)
         for gpat in (f"len({stack_name}) > 0", f"{stack_name}", f"len({stack_name}) != 0", f"len({stack_name}) >= 1"):
-            if H.match(gpat, pi.test) is not None:
+            if H.match(gpat, ptest) is not None:
                 b = H.Bindings()
                 break
-        if b is None or len(pi.body) != 1 or len(pi.orelse) != 1:
+        if b is None or len(pbody) != 1 or len(porelse) != 1:
             continue
         for vpat in (f"$p = {stack_name}[-1]", f"$p = {stack_name}[-1].idx"):
-            r = H.match(vpat, pi.body[0])
-            if r is not None and isinstance(pi.orelse[0], ast.Assign) and H.name_id(pi.orelse[0].targets[0]) == r["__mv_p"]:
+            r = H.match(vpat, pbody[0])
+            if r is not None and isinstance(porelse[0], ast.Assign) and H.name_id(porelse[0].targets[0]) == r["__mv_p"]:
                 pd_ok, parent_var = True, r["__mv_p"]
     chk.ob("C03.R3-builder", f"{mod.name}: OPEN: parent = top of the stack (root when empty)", pd_ok, where, found=[ast.unparse(p)[:120] for p in ob if isinstance(p, ast.If)], accepted="parent = stack[-1] if stack else root")
     direct = lambda c: any(isinstance(st, ast.Expr) and st.value is c for st in ob)
@@ -184,7 +185,8 @@ def _builders(db, chk, new, old, OPEN_N, CLOSE_N, START_O, END_O):
     else:
         chk.ob("C03.R4-encoding", f"{NEW}: endpoint array built by melt + replace", None, new.loc(f), found={"melt": len(melt), "replace": len(rep)})
     ends = [s for s in ast.walk(f) if isinstance(s, ast.Assign) and isinstance(s.targets[0], ast.Subscript) and lit(s.targets[0].slice) == "end"]
-    chk.ob("C03.R4-encoding", f"{NEW}: end = ts + dur", len(ends) == 1 and (H.match("$d['end'] = $d['ts'] + $d['dur']", ends[0]) or H.match("$d['end'] = $d['dur'] + $d['ts']", ends[0])) is not None, new.loc(f),
+    ends_x = [H.expand(f, e) for e in ends]
+    chk.ob("C03.R4-encoding", f"{NEW}: end = ts + dur", len(ends) == 1 and (H.match("$d['end'] = $d['ts'] + $d['dur']", ends_x[0]) or H.match("$d['end'] = $d['dur'] + $d['ts']", ends_x[0])) is not None, new.loc(f),
            found=[ast.unparse(e) for e in ends], accepted="_df['end'] = _df['ts'] + _df['dur']")
     if lp is not None and isinstance(lp.target, ast.Tuple):
         chk.ob("C03.R4-encoding", f"{NEW}: the scan unpacks rows in the array's column order", len(lp.target.elts) == 4, new.loc(lp), found=ast.unparse(lp.target), accepted="idx, dur, kind, time")
@@ -218,6 +220,7 @@ def _builders(db, chk, new, old, OPEN_N, CLOSE_N, START_O, END_O):
            why="positional construction must agree with the field order the comparator reads")
     endo = [s for s in ast.walk(g) if isinstance(s, ast.Assign) and isinstance(s.targets[0], ast.Subscript) and lit(s.targets[0].slice) == "end"]
     duro = [s for s in ast.walk(g) if isinstance(s, ast.Assign) and isinstance(s.targets[0], ast.Subscript) and lit(s.targets[0].slice) == "dur"]
+    endo = [H.expand(g, e) for e in endo]
     okend = len(endo) == 1 and any(H.match(p_, endo[0]) is not None for p_ in ("$d['end'] = $d['ts'] + $d['dur'].astype(int)", "$d['end'] = $d['ts'] + $d['dur']", "$d['end'] = $d['dur'].astype(int) + $d['ts']", "$d['end'] = $d['dur'] + $d['ts']"))
     okdur = len(duro) == 1 and any(H.match(p_, duro[0]) is not None for p_ in ("$d['dur'] = np.maximum($d['dur'], 0)", "$d['dur'] = np.maximum(0, $d['dur'])", "$d['dur'] = $d['dur'].clip(lower=0)"))
     chk.ob("C03.R4-encoding", f"{OLD}: end = ts + max(dur, 0)", okend and okdur, old.loc(g), found=[ast.unparse(x) for x in duro + endo], accepted=["df['dur'] = np.maximum(df['dur'], 0)", "df['end'] = df['ts'] + df['dur']"])
